@@ -528,6 +528,22 @@ func (s *Stage) Recover() {
 				}
 			} else if _, err = os.Stat(base); os.IsNotExist(err) {
 				// Not found
+				// A crash between the two renames of fileutil.Move leaves the
+				// validated and logged file in the target directory under its
+				// lock name; finish that move before dropping the companion.
+				targetName := cmp.Name
+				if cmp.Renamed != "" {
+					targetName = cmp.Renamed
+				}
+				targetPath := filepath.Join(s.targetDir, targetName)
+				if _, lckErr := os.Stat(targetPath + fileutil.LockExt); lckErr == nil {
+					if err = os.Rename(targetPath+fileutil.LockExt, targetPath); err != nil {
+						s.logError("Failed to finish interrupted move:",
+							targetPath, err.Error())
+						return nil
+					}
+					s.logInfo("Finished interrupted move:", targetPath)
+				}
 				if err = os.Remove(path); err != nil {
 					s.logError("Failed to remove orphaned companion:",
 						path, err.Error())
